@@ -210,7 +210,8 @@ func (e *DocumentError) SourceSubString() string {
 	end := e.lineEnd()
 
 	// The indentation isn't shown: it doesn't count against the length of the line.
-	line := content[begin:end].TrimSpacesFromLeft()
+	line := content[begin:end]
+	line = line[indentation(line):]
 	if len(line) > maxLength {
 		return string(line[:maxLength-3]) + "..."
 	}
@@ -223,7 +224,7 @@ func (e *DocumentError) pointerToTheErrorCharacter() string {
 
 	content := e.file.Content()
 	begin := e.lineBeginning()
-	spaces := content[begin:].CountSpacesFromLeft()
+	spaces := indentation(content[begin:e.lineEnd()])
 
 	i := int(e.index) - int(begin) - spaces
 	if i < 0 {
@@ -231,6 +232,17 @@ func (e *DocumentError) pointerToTheErrorCharacter() string {
 		i = 0
 	}
 	return strings.Repeat("-", i) + "^"
+}
+
+// indentation returns the number of blanks the line begins with: all of it for
+// a line of blanks only.
+func indentation(line bytes.Bytes) int {
+	for i, c := range line {
+		if !bytes.IsBlank(c) {
+			return i
+		}
+	}
+	return len(line)
 }
 
 func (e DocumentError) Error() string {
